@@ -66,6 +66,7 @@ type Config struct {
 	Peers                             []proxy.PeerConfig
 	Tokens                            []string
 	PreparedCache                     proxycore.PreparedCache
+	MaxStreams                        int16 // tuning knob: stream ids per backend connection (0 = the shipped 2048)
 	TweakProxy                        func(*proxy.Config)
 }
 
@@ -434,6 +435,10 @@ func (w *World) proxyLogger() *zap.Logger {
 func (w *World) StartProxy(bind string, contact []string, tweak func(*proxy.Config)) *ProxyInst {
 	pi := &ProxyInst{ID: len(w.Proxies), Bind: bind}
 	w.Proxies = append(w.Proxies, pi)
+	proxycore.SimMaxStreams = proxycore.MaxStreams
+	if w.Cfg.MaxStreams > 0 {
+		proxycore.SimMaxStreams = w.Cfg.MaxStreams
+	}
 	ctx, cancel := context.WithCancel(context.Background())
 	pi.Cancel = cancel
 	cfg := proxy.Config{
